@@ -31,7 +31,7 @@ ASSUMPTIONS = [
 def grid(ctx):
     rng = ctx.rng
     pairs = []
-    for rq in ctx.scale([1, 30, 100, 257, 4096, 65536], [1, 2, 10, 30, 41, 64, 100, 127, 128, 129, 257, 1000, 4096, 16384, 65536, 300000]):
+    for rq in ctx.scale([1, 30, 64, 100, 257, 1000, 4096, 65536], [1, 2, 10, 30, 41, 64, 100, 127, 128, 129, 257, 1000, 4096, 16384, 65536, 300000]):
         for rs in ctx.scale({max(1, rq // 2), rq * 2 + 1, rq, 10 * 1024 * 1024, 80},
                             {max(1, rq // 2), rq * 2 + 1, rq, rq + 1, max(1, rq - 1), 10 * 1024 * 1024, 80}):
             pairs.append((rq, rs))
